@@ -32,6 +32,16 @@ SIGMA_CORE = [s for s in SIGMA if s[0] not in ('create_memzone', 'include') and 
 SIGMA_CORE_Q = [s for s in SIGMA_CORE if s not in (('if', ('cmp', 'SA', '==', 1)), ('elif', ('sym', 'SB')), ('define', 'SB', '1'))]
 
 INCLUDED = [('data', 1, [0xF0]), ('define', 'SM', '1'), ('data', 1, [0xF1])]
+# included files whose own directives are unbalanced (every file has its own chain of openers) or balanced
+INC_FILES = {
+    'm.asm': INCLUDED,
+    'ie.asm': [('data', 1, [0xF4]), ('else',), ('data', 1, [0xF5])],
+    'il.asm': [('data', 1, [0xF4]), ('elif', ('num', 1)), ('data', 1, [0xF5])],
+    'in.asm': [('data', 1, [0xF4]), ('endif',), ('data', 1, [0xF5])],
+    'ib.asm': [('if', ('num', 0)), ('data', 1, [0xF4]), ('else',), ('data', 1, [0xF5]), ('endif',), ('data', 1, [0xF6])],
+}
+SIGMA_INC = [('if', ('num', 1)), ('if', ('num', 0)), ('ifdef', 'SA'), ('elif', ('num', 1)), ('else',), ('endif',), ('define', 'SA', '1'),
+             ('include', 'ie.asm'), ('include', 'il.asm'), ('include', 'in.asm'), ('include', 'ib.asm')]
 PARAMS = R.Params(address_size=16, endian='little')
 ISA = probe_isa(16, 'little')
 
@@ -119,13 +129,14 @@ def nontrivial(history, res):
 
 def check_history(acc, history):
     """Executes all variants of one history; returns (reference state key, extendable)."""
-    files_extra = {'m.asm': INCLUDED}
+    files_extra = INC_FILES
     state = None
     extendable = True
     for name, stmts in build(history):
         files = {'main.asm': stmts}
-        if any(s[0] == 'include' for s in stmts):
-            files.update(files_extra)
+        for st in stmts:
+            if st[0] == 'include':
+                files[st[1]] = files_extra[st[1]]
         ref = R.assemble(PARAMS, files)
         case = Case(ISA, R.render_files(files))
         out = acc.run(case)
@@ -165,6 +176,15 @@ def shard(acc, tier, idx, n):
     core_depth = 5 if q else 6
     # shard = subtree under the first two symbols of the full alphabet; depth 0 and 1 belong to shard 0
     comparisons(acc, idx, n)
+    # included files with stray / balanced directives of their own, at every position of every short history
+    ctr = 0
+    for depth in range(1, (3 if q else 4) + 1):
+        for h in itertools.product(SIGMA_INC, repeat=depth):
+            if not any(d[0] == 'include' for d in h):
+                continue
+            ctr += 1
+            if ctr % n == idx:
+                check_history(acc, h)
     if idx == 0:
         check_history(acc, ())
         for s in SIGMA:
